@@ -145,6 +145,28 @@ impl Game {
             bail!("Invalid board size");
         }
 
+        // The move buffer holds 256 moves, enough for any material a game can reach:
+        // at most 8 pawns per side and every extra piece paid for by a missing pawn
+        for owner in [Player::White, Player::Black] {
+            let count = |piece_type: PieceType| {
+                board
+                    .iter()
+                    .flatten()
+                    .filter(|piece| piece.owner == owner && piece.piece_type == piece_type)
+                    .count() as i32
+            };
+            let promoted = (count(PieceType::Queen) - 1).max(0)
+                + (count(PieceType::Rook) - 2).max(0)
+                + (count(PieceType::Bishop) - 2).max(0)
+                + (count(PieceType::Knight) - 2).max(0);
+            if count(PieceType::King) != 1
+                || count(PieceType::Pawn) > 8
+                || promoted > 8 - count(PieceType::Pawn)
+            {
+                bail!("Impossible material");
+            }
+        }
+
         let Some(next_player) = terms.next() else {
             bail!("Missing player");
         };
